@@ -129,7 +129,13 @@ fn run_case(cfg: RtCfg, prog: &Arc<Program>, probe: ProbeSpec) -> Result<u64, St
             let r = quiet_catch(move || -> Result<u128, String> {
                 rt.start();
                 rt.dispatch_n_events(k);
+                let before = rt.sim_time().as_nanos();
+                // a time-bounded step whose bound is not ahead of the clock must not set the clock back
+                rt.dispatch_events_until(ns(cfg.start));
                 let now = rt.sim_time().as_nanos();
+                if now < before || des::time::SimTime::now().as_nanos() < before {
+                    return Err(format!("dispatch_events_until({}ns) on a runtime paused at {before}ns set the clock back to {now}ns", cfg.start));
+                }
                 if u128::from(at) < now {
                     return Ok(u128::MAX); // not applicable at this cut
                 }
@@ -322,7 +328,7 @@ impl Property for C02 {
     fn rule(&self, tier: Tier) -> String {
         format!(
             "every event program (forest) with 1..={} events (per configuration: third number), delays from {{0,1,t-1,t,t+1,Y,Y+1}}, x start time in {{0,5,Y+1}} x (n,t,max events) in {:?}, run on the real Runtime; \
-             per program: one plain run + a probe add_event(now - d), d in {{0 (must be accepted), 1, t, start}}, placed before run and inside every handler; for programs of up to 3 (quick) / 4 (thorough) events also: start, dispatch_n_events(k) for every k, add_event from outside at every time around the program's timestamps that is not in the past of the paused runtime, run to the end (clock and timestamps must stay right); \
+             per program: one plain run + a probe add_event(now - d), d in {{0 (must be accepted), 1, t, start}}, placed before run and inside every handler; for programs of up to 3 (quick) / 4 (thorough) events also: start, dispatch_n_events(k) for every k, dispatch_events_until(start time) (must not set the clock back), add_event from outside at every time around the program's timestamps that is not in the past of the paused runtime, run to the end (clock and timestamps must stay right); \
              plus one forced two-thread schedule (a Builder::build in another thread waits for the simulation lock while a simulation is paused between two steps: the paused clock must not move, later handlers still observe their own timestamps, the visitor gets its own start time); plus, at the network level, messages injected through Runtime::add_message_onto / handle_message_on at 8 offsets around the reported time (before run and while paused, 4 start times): past ones must be rejected, the others handled at exactly their time; a case is one (program, start, config, probe placement) and all are distinct by construction; non-trivial = at least 2 events or a probe",
             tier.pick(4, 5),
             cfgs(tier)
